@@ -230,6 +230,7 @@ func c03StressChild(args []string) {
 		}()
 	}
 	h1 := func(LA) {}
+	var busy atomic.Int64
 	for w := 0; w < 3; w++ {
 		worker(10+w, func(rnd *rand.Rand, i int) { // publishers
 			switch rnd.IntN(4) {
@@ -258,7 +259,15 @@ func c03StressChild(args []string) {
 		case 2:
 			eb.Subscribe(bus, func(LB) {}, eb.Async())
 		case 3:
-			eb.Subscribe(bus, func(LB) { panic("x") }, eb.Async(), eb.Sequential())
+			if rnd.IntN(2) == 0 {
+				eb.Subscribe(bus, func(LB) { panic("x") }, eb.Async(), eb.Sequential())
+			} else { // a handler that is busy for a moment, so that dispatches queue behind it (bounded: the first 4000 calls only)
+				eb.Subscribe(bus, func(LB) {
+					if busy.Add(1) < 4000 {
+						time.Sleep(20 * time.Microsecond)
+					}
+				}, eb.Async(), eb.Sequential())
+			}
 		case 4:
 			eb.SubscribeContext(bus, func(context.Context, LA) {}, eb.Sequential(), eb.WithFilter(func(e LA) bool { return e.N%2 == 0 }))
 		case 5:
